@@ -36,7 +36,7 @@ def _perm_of(v):
     if isinstance(v, mx.Sym) and v.struct and v.struct[0] == 'attr' and v.struct[2] == 'T':
         return v.struct[1], None
     rec = mx.method_call(v, 'transpose')
-    if rec is not None:
+    if rec is not None and mx.show(rec) not in ('numpy', 'np'):
         perm = v.struct[2]
         perm = perm[0] if len(perm) == 1 and isinstance(perm[0], (tuple, list)) else perm
         return rec, (list(perm) if perm else None)
@@ -56,7 +56,7 @@ def at(v, idx, is_root):
         rec, perm = tp
         if perm is None:
             return at(rec, idx[::-1], is_root)
-        if sorted(perm) != list(range(len(idx))) or not all(isinstance(p, int) for p in perm):
+        if not all(isinstance(p, int) for p in perm) or sorted(perm) != list(range(len(idx))):
             raise Unfollowed('transposition %s of a %d-dimensional element' % (perm, len(idx)))
         new = [None] * len(idx)
         for pos, ax in enumerate(perm):
@@ -74,6 +74,8 @@ def at(v, idx, is_root):
         return at(c[0][0], new, is_root)
     c = mx.call_of(v, 'swapaxes') if isinstance(v, mx.Sym) else None
     rec = mx.method_call(v, 'swapaxes') if isinstance(v, mx.Sym) else None
+    if rec is not None and mx.show(rec) in ('numpy', 'np'):
+        rec = None
     if rec is not None or (c is not None and len(c[0]) == 3):
         a_, b_ = (v.struct[2][0], v.struct[2][1]) if rec is not None else (c[0][1], c[0][2])
         base = rec if rec is not None else c[0][0]
